@@ -19,6 +19,7 @@ VCFF2 = "ufo2ft._compilers.variableCFF2sCompiler.VariableCFF2sCompiler"
 def run(prog, chk):
     chk.decided += [
         "subroutiniser dispatch is exhaustive over the backend enum; version-default table covers every CFF version (R12.1)",
+        "the subroutiniser that runs is the one the caller asked for, the version default only when none was requested: unsupported combinations reach their NotImplementedError (R12.7)",
         "unsupported combinations reach NotImplementedError: compreffor with non-CFF1, CFF2->CFF without subroutinising, unknown post format (R12.2)",
         "specialise iff >= SPECIALIZE, subroutinise iff >= SUBROUTINIZE, consistent with the IntEnum order; interpolatable masters force NONE (R12.3)",
         "options optimizeCFF/cffVersion/subroutinizer/roundTolerance reach their consumer by name (R12.4)",
@@ -213,6 +214,7 @@ def run(prog, chk):
     chk.guard(check_forwarding, prog, chk, "R12.4")
     chk.minimum("R12.4", 15)
     chk.guard(r126, prog, chk)
+    chk.guard(r127, prog, chk)
 
 
 def masters_force_none(prog, chk, rule):
@@ -299,7 +301,46 @@ def r126(prog, chk):
     chk.minimum("R12.6", 6)
 
 
+
+# ----------------------------------------------------------------------------- R12.7
+def r127(prog, chk):
+    """The subroutiniser that runs is the one the caller asked for; the per-version default only stands in when the caller
+    asked for none.  A backend that cannot handle the requested CFF version therefore reaches its own NotImplementedError
+    instead of being replaced silently (unsupported combinations raise, R12.2)."""
+    ix = prog.ix
+    pc = ix.get_method(PP, "process_cff", own=True)
+    subs = [c for c in A.body_nodes(pc.node) if isinstance(c, ast.Call) and A.callee_name(c) == "_subroutinize"]
+    need(len(subs) == 1 and subs[0].args, f"cannot interpret {pc.short}: _subroutinize call")
+    b = subs[0].args[0]
+    need(isinstance(b, ast.Name), f"cannot interpret {pc.short}: backend argument")
+    sp = [p_ for p_ in pc.params() if "subroutinizer" in p_.lower()]
+    need(len(sp) == 1, f"cannot interpret {pc.short}: subroutinizer parameter")
+    sp = sp[0]
+    ds = prog.reaching(pc, b.id, b)
+    ok = bool(ds)
+    why = []
+    for d in ds:
+        v = d.value
+        fs = facts(prog, pc, d.binder) if d.binder is not None else set()
+        if isinstance(v, ast.Call) and A.callee_name(v) == "SubroutinizerBackend" and len(v.args) == 1 and T(v.args[0]) == sp:
+            okd = any(o == "isnot" and l == sp and r == "None" for o, l, r in fs)
+            why.append(f"{T(v, 50)} when {sp} is given" if okd else f"{T(v, 50)} (not under '{sp} is not None')")
+        elif isinstance(v, ast.Subscript) and "DEFAULT_SUBROUTINIZER_FOR_CFF_VERSION" in T(v.value):
+            okd = any(o == "is" and l == sp and r == "None" for o, l, r in fs)
+            why.append("version default when none is given" if okd else "version default although a backend was requested")
+        else:
+            okd = False
+            why.append(f"`{T(v, 50) if v is not None else d.kind}`")
+        ok = ok and okd
+    chk.ob("R12.7", f"{pc.short}|the requested subroutiniser is the one that runs (the version default only when none was requested)", ok, where(pc, subs[0]), detail="; ".join(why),
+           message=f"{pc.short}: the backend handed to _subroutinize is not 'SubroutinizerBackend({sp}) if given, else the default for the output version' ({'; '.join(why)}): an explicit "
+                   f"request can be replaced silently instead of raising NotImplementedError for a combination the backend does not support")
+    chk.minimum("R12.7", 1)
+
+
 MUTANTS = [
+    M("an unsupported explicit backend is replaced by the version default (seeded C12f shape)", "ufo2ft/postProcessor.py", "PostProcessor.process_cff",
+      "backend = self.SubroutinizerBackend(subroutinizer)", "backend = self.SubroutinizerBackend(subroutinizer)\nif cffOutputVersion == CFFVersion.CFF2:\n    backend = self.DEFAULT_SUBROUTINIZER_FOR_CFF_VERSION[cffOutputVersion]", rule="R12.7"),
     M("empty glyphs get a hand-built charstring with a truthiness test of the operand (seeded C12b)", "ufo2ft/outlineCompiler.py", "OutlineOTFCompiler.getCharStringForGlyph",
       "pen = T2CharStringPen(width, self.allGlyphs, roundTolerance=self.roundTolerance)",
       "if not len(glyph):\n    return T2CharString(program=[width, 'endchar'] if width else ['endchar'], private=private, globalSubrs=globalSubrs)\npen = T2CharStringPen(width, self.allGlyphs, roundTolerance=self.roundTolerance)", rule="R12.6"),
